@@ -132,8 +132,9 @@ def entryGo (rec : Obj → List String → G (List (List String))) (pts : List (
   | .ok p => .ok (pts ++ p)
 
 /-- one element of a list answer (`for entryI, iEntry := range rootList`); `rec` is the recursive call
-    on the element with the extended branch -/
-def entryStep (point : String) (last : Bool) (branch : List String)
+    on the element with the extended branch; `skipNull` = the guard `if iEntry == nil { continue }`
+    stands before the map assertion -/
+def entryStep (skipNull : Bool) (point : String) (last : Bool) (branch : List String)
     (rec : Obj → List String → G (List (List String))) (acc : R) (xi : J × Nat) : R :=
   match acc with
   | .error e => .error e
@@ -150,7 +151,7 @@ def entryStep (point : String) (last : Bool) (branch : List String)
       else entryGo rec pts o (branch ++ [ep])
     | .null =>
       -- `if iEntry == nil { continue }`: nothing to stitch at a null element
-      if Gen.Nulls.findIPSkipsNullElements then .ok pts
+      if skipNull then .ok pts
       else .error (some (ferr "entry-not-map" "entry in result wasn't a map"))
     | _ => .error (some (ferr "entry-not-map" "entry in result wasn't a map"))
 
@@ -193,7 +194,7 @@ def fip (f : Facts) : List String → List Sel → Obj → List String → G (Li
         if fd.isList then
           match v with
           | .arr xs =>
-            finish (xs.zipIdx.foldl (entryStep point rest.isEmpty branch (fun o b => fip f rest fd.sub o b)) (.ok []))
+            finish (xs.zipIdx.foldl (entryStep Gen.Nulls.findIPSkipsNullElements point rest.isEmpty branch (fun o b => fip f rest fd.sub o b)) (.ok []))
           | _ => .error (ferr "not-a-list" "root value of result chunk was not a list")
         else
           if rest.isEmpty then lastNonList f point branch v
